@@ -247,6 +247,24 @@ pub fn run(cat: &Catalog, cfg: &Config, stats: &mut Stats, run_seed: u64) -> Vec
         run.submit(c);
     };
 
+    // C13: a value of the 200-constructor enum (indices above 127 need a two-byte varint)
+    if focus == "C13" && sw.chance(1, 3) {
+        let e = cat.by_name("Big200").unwrap();
+        let val = gen.val(&e.ty, &mut wl);
+        if let (Outcome::Ok(bytes), Val::Enum(decl, _)) = (contain(u64::MAX, || (e.encode)(&val)).0, &val) {
+            run.trace.push(format!("a node writes Big200 constructor {decl}"));
+            let mut c = Case::new("C13", "ctor-index", "Big200", bytes.clone());
+            c.expected = Some(decl.to_string());
+            c.fault = format!("Big200 constructor K{decl:03} -> written");
+            run.submit(c);
+            let mut c = Case::new("C13", "script", "Big200", bytes);
+            c.enc_len = c.input.len();
+            c.batch = vec![("Big200".to_string(), format!("ok:{val:?}"))];
+            c.fault = format!("Big200 constructor K{decl:03} -> read back");
+            run.submit(c);
+        }
+    }
+
     // ---- events --------------------------------------------------------------------------------
     for _ in 0..nevents {
         run.stats.events += 1;
